@@ -325,6 +325,9 @@ Qed.
 Lemma weaken_strip r o : strip_r r = strip_r (of_option o) -> option_map strip (to_option r) = option_map strip o.
 Proof. destruct r, o; cbn; intros H; try discriminate; try reflexivity. injection H as ->. reflexivity. Qed.
 
+(* As for zip_latest below: first decide everything the method can ask about the state (was this upstream's entry
+   present, was its stored metadata empty, are all entries present afterwards, does this upstream trigger an emission),
+   turn the answers into rewrite rules, then only execute. *)
 Theorem bridge_run_combine_latest eo s p x m : p < length (st_last s) ->
   strip_r (gen_run_combine_latest eo s p x m) = strip_r (of_option (update (KCombineLatest eo) s p x m)).
 Proof.
@@ -332,31 +335,28 @@ Proof.
   unfold combine_latest_store, latest_load, combine_latest_last, combine_latest_last_setitem, combine_latest_metadata,
     combine_latest_metadata_getitem, combine_latest_metadata_setitem, combine_latest_missing,
     combine_latest_missing_contains, combine_latest_missing_remove.
-  destruct s as [acc cnt det keyed win seen ports L]. cbn [st_last] in Hp. py.
+  destruct s as [acc cnt det keyed win seen ports L]. cbn [st_last] in Hp.
   set (L' := set_nth p (Some (x, m)) L).
   assert (Ev : set_nth p x (map latest_val L) = map latest_val L') by (unfold L'; rewrite map_set_nth; reflexivity).
   assert (Em : set_nth p (Some m) (map latest_md L) = map latest_md L') by (unfold L'; rewrite map_set_nth; reflexivity).
   assert (Ei : set_nth p false (map is_none L) = map is_none L') by (unfold L'; rewrite map_set_nth; reflexivity).
   assert (F := latest_full L').
-  rewrite (nth_map_in latest_md p L None None Hp).
-  destruct (nth p L None) as [[ov om]|] eqn:Eo; cbn [latest_md option_map snd truthy_optmd].
-  - (* the upstream had emitted before: its old metadata is released (unless empty); it is not missing *)
-    assert (Ei' : map is_none L = map is_none L').
-    { rewrite <- Ei. symmetry. apply set_nth_same with (d := false); [|rewrite map_length; exact Hp].
-      rewrite (nth_map_in is_none p L None false Hp), Eo. reflexivity. }
-    destruct om as [|i om]; pyr; rewrite ?(nth_map_in latest_md p L None None Hp), ?Eo; cbn [latest_md option_map snd]; pyr;
-      rewrite (nth_map_in is_none p L None false Hp), Eo; cbn [is_none]; rewrite andb_false_r; pyr;
-      rewrite ?Ei';
-      (destruct (all_some L') as [full|]; [destruct F as [F1 [F2 F3]]; rewrite <- ?F2|]; rewrite ?F1, ?F; cbn [negb andb];
-       [destruct (combine_latest_emit_on_contains eo p) eqn:T; unfold combine_latest_emit_on_contains in T; rewrite T|];
-       repeat (progress (pyr; rewrite ?Ev, ?Em, ?Ei, ?F3, ?latest_roundtrip)); reflexivity).
-  - (* first element from this upstream *)
-    pyr. rewrite (nth_map_in is_none p L None false Hp), Eo; cbn [is_none].
-    rewrite (truthy_flags_nth p (map is_none L)) by (rewrite (nth_map_in is_none p L None false Hp), Eo; reflexivity).
-    pyr. rewrite ?Ei.
-    destruct (all_some L') as [full|]; [destruct F as [F1 [F2 F3]]; rewrite <- ?F2|]; rewrite ?F1, ?F; cbn [negb andb];
-      [destruct (combine_latest_emit_on_contains eo p) eqn:T; unfold combine_latest_emit_on_contains in T; rewrite T|];
-      repeat (progress (pyr; rewrite ?Ev, ?Em, ?Ei, ?F3, ?latest_roundtrip)); reflexivity.
+  assert (Nmd := nth_map_in latest_md p L None None Hp).
+  assert (Nis := nth_map_in is_none p L None false Hp).
+  assert (T : combine_latest_emit_on_contains eo p =
+              match eo with Some ps => existsb (Nat.eqb p) ps | None => true end) by reflexivity.
+  destruct (match eo with Some ps => existsb (Nat.eqb p) ps | None => true end) eqn:Tr;
+  destruct (nth p L None) as [[ov om]|] eqn:Eo; cbn [latest_md option_map snd is_none] in Nmd, Nis.
+  all: try (assert (Ei' : map is_none L = map is_none L')
+              by (rewrite <- Ei; symmetry; apply set_nth_same with (d := false); [exact Nis | rewrite map_length; exact Hp]);
+            assert (Nis' : nth p (map is_none L') false = false) by (rewrite <- Ei'; exact Nis)).
+  all: try (assert (Et : truthy_flags (map is_none L) = true) by (apply (truthy_flags_nth p); exact Nis)).
+  all: try (destruct om as [|i om]).
+  all: destruct (all_some L') as [full|] eqn:EA; [destruct F as [F1 [F2 F3]]|].
+  all: repeat (progress (pyr; fold L'; rewrite ?Eo, ?Nmd, ?Nis, ?Nis', ?Ev, ?Em, ?Ei', ?Ei, ?Et, ?EA, ?F1, ?F3, ?F, ?T, ?Tr,
+                                   ?latest_roundtrip; rewrite <- ?F2;
+                         cbn [truthy_optmd orb andb negb latest_val latest_md option_map fst snd])).
+  all: reflexivity.
 Qed.
 
 Theorem bridge_update_combine_latest eo s p x m : p < length (st_last s) ->
